@@ -6,12 +6,14 @@
     ColumnSeries.Len                columnseries.go:65       cs_len
     NewNumpyDataset                 numpy.go:61              new_nds
     NewNumpyMultiDataset            numpy.go:139             new_nmds
-    NumpyMultiDataset.Append        numpy.go:176             append_cs
+    NumpyMultiDataset.Append        numpy.go:169             append_cs   (names AND type strings compared — /repo fix)
     executeQuery's fold             frontend/query.go:231    fold_step / encode   (NewNumpyDataset's error is IGNORED:
-                                                             `if err != nil { return nil, err2 }` tests the wrong variable)
+                                                             `if err != nil { return nil, err2 }` tests the wrong variable;
+                                                             for a later bucket Append's own type check now reports it)
     NumpyDataset.buildDataShapes    numpy.go:84              build_shapes
-    NumpyDataset.ToColumnSeries     numpy.go:96              to_cs
-    NumpyMultiDataset.ToColumnSeriesMap  numpy.go:156        to_csm      (write path: frontend/write.go:38)
+    NumpyDataset.ToColumnSeries     numpy.go:96              to_cs       (no special case for empty data — /repo fix)
+    NumpyMultiDataset.ToColumnSeriesMap  numpy.go:153        to_csm      (write path: frontend/write.go:38; zero-row buckets
+                                                             are converted like the others — /repo fix)
     MultiQueryResponse.ToColumnSeriesMap frontend/query.go:69 resp_to_csm (query path: frontend/client/client.go:64)
     NewTimeBucketKeyFromString      keytypes.go:37           decode_key
     ColumnSeriesMap.AddColumnSeries columnseries.go:416      add_cs
@@ -108,15 +110,34 @@ Fixpoint zip_app (d : list (list byte)) (e : list (list byte)) : Res (list (list
                end
   end.
 
+(** typeStr != nmds.ColumnTypes[idx] for every column of the series (idx >= len(ColumnTypes) is a mismatch) *)
+Fixpoint types_match (ts wt : list string) : bool :=
+  match ts with
+  | [] => true
+  | t :: tr => match wt with
+               | [] => false
+               | u :: ur => String.eqb t u && types_match tr ur
+               end
+  end.
+
+(** The Go loop interleaves the name and the type test per column; both failures return an error, so
+    testing all names first is observationally the same (an index panic in the name test needs
+    len(ColumnNames) > len(ColumnData), which no dataset built by this code has). *)
 Definition append_cs (w : wire) (cs : list col) (k : key) : Res wire :=
   if negb (length (w_data w) =? length cs) then Rejected
   else
     do m <- names_match (w_names w) (map cname cs);
     if negb m then Rejected
     else
-      do d <- zip_app (w_data w) (map cdata cs);
-      Ok (mkwire (w_types w) (w_names w) d (w_length w + cs_len cs)
-                 (aset k (w_length w) (w_start w)) (aset k (cs_len cs) (w_lens w))).
+      match typestrs cs with
+      | Ok ts =>
+          if negb (types_match ts (w_types w)) then Rejected
+          else
+            do d <- zip_app (w_data w) (map cdata cs);
+            Ok (mkwire (w_types w) (w_names w) d (w_length w + cs_len cs)
+                       (aset k (w_length w) (w_start w)) (aset k (cs_len cs) (w_lens w)))
+      | _ => Rejected                               (* a column type without a type string *)
+      end.
 
 (** one iteration of the loop in executeQuery; [None] = the nil *NumpyMultiDataset *)
 Definition fold_step (acc : option wire) (b : bucket) : Res (option wire) :=
@@ -178,12 +199,7 @@ Fixpoint conv_cols (sh : list (list byte * Z)) (data : list (list byte)) (start 
 
 (** ToColumnSeries(startIndex, length) *)
 Definition to_cs (w : wire) (start len : nat) : Res (list col) :=
-  match w_data w with
-  | [] => Panic                               (* nds.ColumnData[0] *)
-  | d0 :: _ =>
-      if (length d0 =? 0)%nat then Ok []
-      else do sh <- build_shapes w; conv_cols sh (w_data w) start len
-  end.
+  do sh <- build_shapes w; conv_cols sh (w_data w) start len.
 
 (** strings.Split(s, ":") *)
 Fixpoint split_colon_aux (s cur : list byte) : list (list byte) :=
@@ -227,8 +243,7 @@ Fixpoint to_csm_loop (w : wire) (es : list (key * nat)) (acc : csm) : Res csm :=
   match es with
   | [] => Ok acc
   | (k, idx) :: r =>
-      let n := len_of w k in
-      do cs <- (if (0 <? n)%nat then to_cs w idx n else Ok []);
+      do cs <- to_cs w idx (len_of w k);
       to_csm_loop w r (add_cs acc (decode_key k) cs)
   end.
 Definition to_csm (w : wire) : Res csm := to_csm_loop w (w_start w) [].
@@ -272,14 +287,14 @@ Definition dom (bs : list bucket) : bool :=
   && nodup_names (map fst bs)
   && forallb (fun b => cs_wf (snd b)) bs.
 
-(** the three defect classes the guard excludes *)
-Definition no_zero_rows (bs : list bucket) : bool := forallb (fun b => (0 <? cs_len (snd b))%nat) bs.
+(** [same_shapes]: the condition under which the dataset is built (otherwise Append returns an error);
+    [keys_canonical]: the one defect class the guard still excludes *)
 Definition same_shapes (bs : list bucket) : bool :=
   match bs with [] => true | b0 :: r => forallb (fun b => shape_eqb (shape_of (snd b)) (shape_of (snd b0))) r end.
 Definition keys_canonical (bs : list bucket) : bool := forallb (fun b => key_canonical (fst b)) bs.
 
 Definition guard (bs : list bucket) : bool :=
-  dom bs && no_zero_rows bs && same_shapes bs && keys_canonical bs.
+  dom bs && same_shapes bs && keys_canonical bs.
 
 (** * comparison of bucket maps (used by the correspondence and by the boolean form of the property) *)
 Definition col_eqb (a b : col) : bool :=
